@@ -182,6 +182,21 @@ class Stops:
                     lab = "?%s|%s" % (name, txt)
                     self.unknown.append(lab)
                     self.map[(code.co_filename, ln)] = lab
+            # generator expressions / lambdas / nested functions of a modelled function run in frames of their own:
+            # they are traced too, so that a thread can be preempted BETWEEN the items of an iteration over shared data
+            stack = [code]
+            while stack:
+                for c in stack.pop().co_consts:
+                    if not hasattr(c, "co_code"):
+                        continue
+                    stack.append(c)
+                    self.codes.add(c)
+                    for ln in sorted({ln for _, _, ln in c.co_lines() if ln is not None}):
+                        if (c.co_filename, ln) in self.map or partial or not (0 <= ln - start < len(lines)):
+                            continue
+                        lab = "?%s|%s" % (name, lines[ln - start].strip())
+                        self.unknown.append(lab)
+                        self.map[(c.co_filename, ln)] = lab
 
 
 class Sched:
@@ -741,6 +756,8 @@ def pairs_quick(O):
         ("oct", [O["ensure"](0), O["verify"](K(0), "hs-nokid")]),
         ("oct", [O["ensure"](0), O["kid"](0)]),
         ("oct", [O["thumb"](0), O["ensure"](0)]),
+        ("oct", [O["thumb"](0), O["newset"]([0])]),
+        ("okp", [O["kid"](0), O["newset"]([0])]),
         ("oct-set", [O["verify"](S(0), "hs-tp"), O["as_dict"](0, False)]),
         ("ec", [O["sign"](K(0), "ES256", allowed=["ES256"]), O["as_dict"](0, False)]),
         ("ec", [O["verify"](K(0), "es-nokid"), O["verify"](K(0), "es-nokid")]),   # cached public_key filled twice
@@ -2014,7 +2031,7 @@ def singleton_schedules(ctx, specs, pristine, only=None):
             seen = set()
             for first in (0, 1):
                 pts = [(i, True) for i in range(core[first] + 1)]
-                stride = 3 if ctx.quick else 1
+                stride = 4 if ctx.quick else 1
                 off = ctx.rng.randrange(stride)
                 pts += [(i, False) for i in range(off, cnt[first] + 1, stride)]
                 for i, core_only in pts:
@@ -2098,7 +2115,10 @@ def _run(ctx, ok, log, mat, pristine):
 
     # (2b) all schedules with <= 2 preemptions of the operation pairs
     per_pair = {}
-    for wn, pops in pairs_quick(O):
+    K, S = lambda i: ("k", i), lambda i: ("s", i)
+    more = [] if ctx.quick else [("ec", [O["thumb"](0), O["newset"]([0])]), ("okp", [O["thumb"](0), O["ensure"](0)]), ("ec-lazyset", [O["thumb"](0), O["sign"](S(0), "ES256")]),
+                                 ("oct", [O["as_dict"](0, False), O["newset"]([0])]), ("ec", [O["kid"](0), O["ensure"](0)])]
+    for wn, pops in pairs_quick(O) + more:
         n = runner.pair(variant, wn, pops, "pair", 2 if ctx.quick else 4, all_lines=not ctx.quick and len(per_pair) < 6)
         per_pair["%s: %s" % (wn, " || ".join(op.name for op in pops))] = n
     for wn, pops in jwe_pairs(O, runner.mat):
